@@ -888,7 +888,88 @@ theorem metropolis_ok_in_bounds (k : Nat) (domain : List Rat) (h : metropolisMea
     have : domain.length = k := h.resolve_left hne
     simp [this, hi]
 
+theorem interval_guard_iff (a b : Rat) : intervalGuard a b = stop ↔ ¬ intervalMeaningful a b := by
+  unfold intervalGuard intervalMeaningful stop pass
+  split <;> simp_all
+
+theorem weakInterval_guard_iff (a b : Rat) : weakIntervalGuard a b = stop ↔ ¬ weakIntervalMeaningful a b := by
+  unfold weakIntervalGuard weakIntervalMeaningful stop pass
+  split <;> simp_all
+
+theorem quantileGauss_guard_iff (p sigma : Rat) :
+    quantileGaussGuard p sigma = stop ↔ ¬ quantileGaussMeaningful p sigma := by
+  unfold quantileGaussGuard quantileGaussMeaningful
+  by_cases h : sigma < 0
+  · rw [if_pos h]; simp only [true_iff]; intro hh; linarith [hh.1]
+  · rw [if_neg h, invErf_guard_iff]
+    push Not at h
+    simp [h]
+
+theorem gauss2D_guard_iff (sx sy : Rat) : gauss2DGuard sx sy = stop ↔ ¬ gauss2DMeaningful sx sy := by
+  unfold gauss2DGuard gauss2DMeaningful stop pass
+  split
+  · rename_i h; simp only [true_iff]; rintro ⟨h1, h2⟩; rcases h with h | h <;> linarith
+  · rename_i h; push Not at h; simp only [reduceCtorEq, false_iff, not_not]; exact ⟨h.1, h.2⟩
+
+theorem likelihoodPoisson_guard_iff (pred bkg : Rat) :
+    likelihoodPoissonGuard pred bkg = stop ↔ ¬ likelihoodPoissonMeaningful pred bkg := by
+  unfold likelihoodPoissonGuard likelihoodPoissonMeaningful stop pass
+  split
+  · rename_i h; simp only [true_iff]; rintro ⟨h1, h2⟩; rcases h with h | h <;> linarith
+  · rename_i h; push Not at h; simp only [reduceCtorEq, false_iff, not_not]; exact ⟨h.1, h.2⟩
+
+theorem incompleteGamma_guard_iff (x s : Rat) : incompleteGammaGuard x s = stop ↔ ¬ incompleteGammaMeaningful x s := by
+  unfold incompleteGammaGuard incompleteGammaMeaningful stop pass
+  split
+  · rename_i h; simp only [true_iff]; rintro ⟨_, h2⟩; linarith
+  · split
+    · rename_i h1 h; simp only [true_iff]; rintro ⟨h2, h3⟩; rcases h with h | h <;> linarith
+    · rename_i h1 h; push Not at h h1; simp only [reduceCtorEq, false_iff, not_not]; exact ⟨h.1, h1⟩
+
+theorem invGammaPFull_guard_iff (p a : Rat) : invGammaPFullGuard p a = stop ↔ ¬ invGammaPFullMeaningful p a := by
+  unfold invGammaPFullGuard invGammaPFullMeaningful stop pass
+  split
+  · rename_i h; simp only [true_iff]; rintro ⟨h1, _⟩; linarith
+  · split
+    · rename_i h1 h; simp only [true_iff]; rintro ⟨_, h2, h3⟩; rcases h with h | h <;> linarith
+    · rename_i h1 h; push Not at h h1; simp only [reduceCtorEq, false_iff, not_not]; exact ⟨h1, h.1, h.2⟩
+
 /-! ## 8. List helpers, utilities, units -/
+
+theorem blockLayout_guard_iff (lens : List Nat) : blockLayoutGuard lens = stop ↔ ¬ blockLayoutMeaningful lens := by
+  unfold blockLayoutGuard blockLayoutMeaningful
+  cases lens with
+  | nil => simp
+  | cons l0 rest =>
+    simp only []
+    by_cases h0 : l0 = 0
+    · rw [if_pos h0]; simp only [true_iff]
+      rintro ⟨c, hc, _, hall⟩
+      have := hall l0 (List.mem_cons_self); omega
+    · rw [if_neg h0]
+      split
+      · rename_i h
+        simp only [List.all_eq_true, decide_eq_true_eq] at h
+        constructor
+        · intro hh; simp [stop, pass] at hh
+        · intro hn; exfalso; apply hn
+          refine ⟨l0, by omega, by simp, ?_⟩
+          intro l hl
+          rcases List.mem_cons.mp hl with rfl | hl
+          · rfl
+          · exact h l hl
+      · rename_i h
+        simp only [List.all_eq_true, decide_eq_true_eq] at h
+        simp only [true_iff]
+        rintro ⟨c, _, _, hall⟩
+        apply h
+        intro l hl
+        rw [hall l (List.mem_cons_of_mem _ hl), hall l0 (List.mem_cons_self)]
+
+example : blockLayoutMeaningful [2, 2] ∧ blockLayoutGuard [2, 1] = stop ∧ blockLayoutGuard [] = stop ∧ blockLayoutGuard [1, 0] = stop :=
+  ⟨⟨2, by decide, by simp, by simp⟩, by decide, by decide, by decide⟩
+
+
 
 theorem transpose_guard_iff (l0 : Nat) (rest : List Nat) :
     transposeGuard l0 rest = stop ↔ ¬ transposeMeaningful l0 rest := by
@@ -1002,5 +1083,41 @@ theorem importTable_guard_iff (e : Bool) (cols nd : Nat) :
 theorem checkForError_guard_iff (c : Bool) : checkForErrorGuard c = stop ↔ ¬ checkForErrorMeaningful c := by
   unfold checkForErrorGuard checkForErrorMeaningful stop pass
   cases c <;> simp
+
+theorem transposeAll_guard_iff (lens : List Nat) : transposeAllGuard lens = stop ↔ ¬ transposeAllMeaningful lens := by
+  unfold transposeAllGuard transposeAllMeaningful
+  cases lens with
+  | nil => simp [stop, pass]
+  | cons l0 rest =>
+    simp only []
+    rw [transpose_guard_iff]
+    unfold transposeMeaningful
+    apply not_congr
+    constructor
+    · intro h a ha b hb
+      have e1 : a = l0 := by rcases List.mem_cons.mp ha with rfl | ha; · rfl
+                             · exact h a ha
+      have e2 : b = l0 := by rcases List.mem_cons.mp hb with rfl | hb; · rfl
+                             · exact h b hb
+      omega
+    · intro h l hl; exact h l (List.mem_cons_of_mem _ hl) l0 (List.mem_cons_self)
+
+theorem closestAll_guard_iff (l : List Rat) : closestAllGuard l = stop ↔ ¬ closestAllMeaningful l := by
+  unfold closestAllGuard closestAllMeaningful
+  by_cases h : l.length = 0
+  · rw [if_pos h]; simp only [true_iff]; rintro ⟨hne, _⟩; exact hne (List.length_eq_zero_iff.mp h)
+  · rw [if_neg h, closest_guard_iff]
+    have : l ≠ [] := fun e => h (by rw [e]; rfl)
+    unfold closestMeaningful
+    simp [this]
+
+theorem importTableRows_guard_iff (e : Bool) (rows cols nd : Nat) :
+    importTableRowsGuard e rows cols nd = stop ↔ ¬ importTableRowsMeaningful e rows cols nd := by
+  unfold importTableRowsGuard importTableRowsMeaningful stop pass
+  cases e
+  · simp
+  · simp only [if_true, true_and]
+    split_ifs <;> simp_all
+    all_goals omega
 
 end Lp.C10
